@@ -164,7 +164,8 @@ def rules(P, R, prefix="C08"):
                             "verify can finish with missing batches without having both parked the block and requested them: %s" % "; ".join(bad)[:400])
 
         # ---------------- D4 waiter waits for all
-        wf = prog.fn(PW + "::waiter")
+        from ..common import waiter_fn
+        wf = waiter_fn(prog, PW)
         pr = prog.fn(PW + "::run")
         if R.judge(wf is not None and pr is not None, prefix + ".D4", "anchors PayloadWaiter::waiter/run" + tag, "", "", "anchor-missing", reason="anchor-missing"):
             ctx = env.ctx(wf)
@@ -212,7 +213,7 @@ def rules(P, R, prefix="C08"):
                         "Some(block) is produced outside `result_of_try_join_all.map(..)`: the block can be resumed before all batches are stored")
             # run: Wait arm feeds waiter with all missing digests and the block
             c2 = env.ctx(pr)
-            wcalls = [n for n in pr.nodes() if n["k"] == "call" and PW + "::waiter" in callee_paths(n)]
+            wcalls = [n for n in pr.nodes() if n["k"] == "call" and wf is not None and wf.path in callee_paths(n)]
             R.floor(prefix + ".D4", len(wcalls), 1, "waiter futures created" + tag)
             for i, n in enumerate(wcalls):
                 a0 = c2.origin_node(n["args"][0])
